@@ -18,4 +18,6 @@ open Emboss.View
 #print axioms C01_R_reported_by_G_partial
 #print axioms C01_G_equals_R_partial
 #print axioms C01_R_size_is_max_end_partial
+#print axioms C01_array_refines_R_partial
+#print axioms C01_R_array_reported_by_G_partial
 #print axioms C01_constants_partial
